@@ -228,10 +228,10 @@ def group_L2():
     M.Model.change_point = wrapped
     try:
         g = np.random.default_rng(0)
-        for t in range(150):
+        for t in range(220):
             d, rec, x0, kw = env['gen'](g, t)
-            if kw.get('nsamples') is not None:
-                continue
+            if kw.get('nsamples') is not None or kw.get('objfun_has_noise'):
+                continue            # the clause is C04's: deterministic objective, no sample averaging (see DESIGN.md 10.9 for what a noisy run showed about A-N1)
             st['scenario'] = (t, str(d['mode']), str(d['constraint']))
             try:
                 np.random.seed(t)
